@@ -528,7 +528,8 @@ TRUSTED = [
     "compositionality (meta-argument): a rewrite at any nesting preserves the whole result because K of a compound depends on its children only through their oracles, except at the audited shape-inspection sites",
 ]
 ASSUMPTIONS = [*groups.COMMON_ASSUMPTIONS, "grammars without node tags (true of the nine bundled grammars; checked on every run)", "NEVER does not occur in the input"]
-BOUNDED = ["differential stand-in on the bundled grammars: sampled sites (2 per rewrite kind and grammar in quick, 8 in thorough), 3-6 inputs each; compositions of two rewrites at every user-stack-touching site of the stack-using grammar (lists)"]
+BOUNDED = ["differential stand-in on the bundled grammars: sampled sites (2 per rewrite kind and grammar in quick, 8 in thorough), 3-6 inputs each; compositions of two rewrites at every user-stack-touching site of the stack-using grammar (lists)",
+           "c08-small-sites: every rewrite kind at EVERY site of six small trivia grammars, all inputs to length 4, four modes"]
 
 
 def specs(tier):
